@@ -592,7 +592,7 @@ def main():
             checker_cmd=f'cd lean && lake build CB.Props.{pid} && lake env lean CB/Audit/{pid}.lean  (#print axioms of every theorem)',
             trusted_base=['Lean 4 kernel', 'axioms: ' + ', '.join(sorted({a for t in po['theorems'] for a in (t['axioms'] or [])})),
                           'hand-written model CB/Model/*.lean tied to /repo by this run\'s correspondence (impl vs model on the op lines below)',
-                          'harness canonical printing, tools/runner.py, tools/extract.py, tools/translate.py (Rust -> Lean translation of the word-level layer: primitives.rs, impl ConstChoice, div_limb.rs; the *Gen theorems are about its output), rustc/LLVM, external crates (subtle, der, rlp, serdect, hybrid-array, rand_core)'],
+                          'harness canonical printing, tools/runner.py, tools/extract.py, tools/translate.py (Rust -> Lean translation of the layers listed in DESIGN 15.1 — lean/CB/Gen/*.lean; the theorems of CB.Props.*Gen are about its output; reference shapes lean/CB/Gen/ref), rustc/LLVM, external crates (subtle, der, rlp, serdect, hybrid-array, rand_core)'],
             theorems=po['theorems'], partial_theorems=po['partial'], leanchecker=po.get('leanchecker'),
             proof_modules=po.get('modules'), translated_from_source=(po.get('translated_from_source') if len(po.get('modules', [])) > 1 else None),
             evaluations=len(lines) * 2, distinct_nontrivial=distinct,
